@@ -77,3 +77,21 @@ Definition type_codes_b : bool :=
      ("ENUMERATION", type_code KEnum); ("BOOLEAN", type_code KBool); ("TEXT_STRING", type_code KStr);
      ("BYTE_STRING", type_code KBytes); ("DATE_TIME", type_code KTime); ("INTERVAL", type_code KDur);
      ("ANY_TAG", ANY_TAG)].
+
+(* ---------- the session model instantiated with the constants server.go uses ---------- *)
+Require Import Session.
+
+Definition cv (n : string) : N := match const_value n with Some v => v | None => 0 end.
+
+Definition inst_K : sconsts :=
+  Eval vm_compute in
+  {| k_success := cv "RESULT_STATUS_SUCCESS"; k_failed := cv "RESULT_STATUS_OPERATION_FAILED";
+     k_general_failure := cv "RESULT_REASON_GENERAL_FAILURE";
+     k_not_supported := cv "RESULT_REASON_OPERATION_NOT_SUPPORTED";
+     k_invalid_message := cv "RESULT_REASON_INVALID_MESSAGE";
+     k_discover_versions := cv "OPERATION_DISCOVER_VERSIONS" |}.
+
+Definition inst_session (c : cfg) (input : bytes) (script : list behaviour) : list event :=
+  session inst_T inst_K c input script.
+
+Definition default_versions : list (Z * Z) := gen_default_versions.
